@@ -239,6 +239,25 @@ class State:
                         return False
                     return res != (k == "in")
             return False
+        if k == "unsafe-text":
+            # "this text may not be encodable": refuted when every piece it is built from is ASCII-safe
+            from .tables import ascii_safe_leaf
+            from .terms import string_leaves
+
+            try:
+                from rules.hexlang import current
+            except ImportError:
+                return False
+            w_ = current()
+            if w_ is None or (isinstance(c[1], tuple) and c[1] and c[1][0] == "param"):
+                return False
+
+            class _Ctx:
+                pass
+
+            cx = _Ctx()
+            cx.s, cx.w = self, w_
+            return all(ascii_safe_leaf(cx, lf) for lf in string_leaves(c[1]))
         if k == "anyof":
             return all(self.contradicts(x) for x in c[1])
         if k == "keys":
